@@ -4,9 +4,9 @@ import sys, subprocess, os, json
 
 PLAN = [
     ("C01-1", "C01", "c01_l1_sub_.*_rd_md"),
-    ("C03-1", "C03", "_s_v2_"),
+    ("C03-1", "C03", "md2x3_s_v2_", "thorough"),
     ("C04-1", "C04", "_s_a_s_"),
-    ("C06-1", "C07", "const_roundtrip"),
+    ("C06-1", "C07", "const_encode_string"),
     ("C07-1", "C07", "vararg"),
     ("C07-2", "C07", "decode_const_(u8|f64)$"),
     ("C20-1", "C20", "."),
@@ -17,7 +17,7 @@ PLAN = [
     ("C15-1", "C15", "incl_step"),
     ("REVERT-e0fc417", "C14", "hash_total|hash_eq_f64"),
     ("REVERT-9cb021e", "C14", "."),
-    ("REVERT-adaaf0e", "C01", "c01_l2_.*reject"),
+    ("REVERT-adaaf0e", "C01", "c01_l2_(mul|gt|and)_.*reject"),
     ("REVERT-90d77a8", "C07", "missing_type"),
     ("REVERT-877d2f7", "C07", "."),
     ("REVERT-5cf60ec", "C15", "incl_u8_accept|incl_step_u8_accept"),
@@ -30,10 +30,12 @@ VERIF = os.path.dirname(os.path.dirname(os.path.abspath(__file__)))
 
 def main():
     want = set(sys.argv[1:])
-    for seed, prop, only in PLAN:
+    for entry in PLAN:
+        seed, prop, only = entry[:3]
+        tier = entry[3] if len(entry) > 3 else "quick"
         if want and seed not in want:
             continue
-        r = subprocess.run([sys.executable, "-m", "engine.seedtest", seed, prop, "--only", only], cwd=VERIF, capture_output=True, text=True)
+        r = subprocess.run([sys.executable, "-m", "engine.seedtest", seed, prop, "--only", only, "--tier", tier], cwd=VERIF, capture_output=True, text=True)
         try:
             rec = json.loads(r.stdout[r.stdout.index("{"):])
             print("%-16s %-4s only=%-40s exit=%s %s" % (seed, prop, only, rec["exit"], rec["summary"][:110]), flush=True)
